@@ -56,12 +56,15 @@ type fileCtx struct {
 	counter *int
 }
 
+// siteCounter numbers call sites across rounds (names of temporaries and labels must stay unique
+// when a second round rewrites a body produced by the first).
+var siteCounter int
+
 // Rewrite computes one round of inlining over the given root packages. isNew reports whether a
 // function object is absent from the reviewed tree. readFile returns current file contents
 // (overlay-aware).
 func Rewrite(pkgs []*packages.Package, isNew func(*types.Func) bool, readFile func(string) ([]byte, error)) (*Result, error) {
 	res := &Result{Overlay: map[string][]byte{}}
-	counter := 0
 	for _, pkg := range pkgs {
 		if pkg.TypesInfo == nil || pkg.Types == nil {
 			continue
@@ -98,7 +101,7 @@ func Rewrite(pkgs []*packages.Package, isNew func(*types.Func) bool, readFile fu
 			if len(src) != tf.Size() {
 				return nil, fmt.Errorf("inline: %s changed size during analysis", tf.Name())
 			}
-			fc := &fileCtx{pkg: pkg, file: f, name: tf.Name(), src: src, tf: tf, imports: map[string]string{}, addImp: map[string]string{}, counter: &counter}
+			fc := &fileCtx{pkg: pkg, file: f, name: tf.Name(), src: src, tf: tf, imports: map[string]string{}, addImp: map[string]string{}, counter: &siteCounter}
 			for _, im := range f.Imports {
 				path := strings.Trim(im.Path.Value, `"`)
 				name := ""
@@ -141,6 +144,31 @@ func (fc *fileCtx) scan(decls map[*types.Func]*ast.FuncDecl, declFile map[*types
 			continue
 		}
 		callerObj, _ := info.Defs[fd.Name].(*types.Func)
+		exprDone := map[*ast.CallExpr]bool{}
+		// expression form: a helper whose body is `return EXPR`, called with side-effect-free
+		// arguments, is replaced by EXPR with the arguments substituted — wherever the call occurs
+		ast.Inspect(fd.Body, func(n ast.Node) bool {
+			call, ok := n.(*ast.CallExpr)
+			if !ok {
+				return true
+			}
+			c2, callee := fc.newCallee(call, isNew, decls)
+			if c2 == nil || callee == callerObj {
+				return true
+			}
+			if txt, ok := fc.exprForm(call, callee, decls[callee]); ok {
+				*fc.counter++
+				fc.edits = append(fc.edits, edit{group: *fc.counter, start: fc.off(call.Pos()), end: fc.off(call.End()), text: txt})
+				if fc.tf.Line(call.End()) != fc.tf.Line(call.Pos()) {
+					fc.resync(fc.off(call.End()))
+				}
+				pos := fc.pkg.Fset.Position(call.Pos())
+				res.Sites = append(res.Sites, fmt.Sprintf("%s:%d %s (expression)", pos.Filename, pos.Line, callee.Name()))
+				exprDone[call] = true
+				return false
+			}
+			return true
+		})
 		// one site per statement per round: collect statements in lists
 		var visitList func(list []ast.Stmt)
 		handled := map[ast.Stmt]bool{}
@@ -152,7 +180,7 @@ func (fc *fileCtx) scan(decls map[*types.Func]*ast.FuncDecl, declFile map[*types
 			if call == nil {
 				return
 			}
-			if callee == callerObj {
+			if callee == callerObj || exprDone[call] {
 				return
 			}
 			handled[s] = true
@@ -243,12 +271,16 @@ func (fc *fileCtx) firstNewCall(s ast.Stmt, isNew func(*types.Func) bool, decls 
 		return nil, nil
 	}
 	for _, e := range exprs {
-		call, blocked := firstCall(e, fc.pkg.TypesInfo)
-		if blocked {
-			return nil, nil
+		isTarget := func(c *ast.CallExpr) bool {
+			c2, _ := fc.newCallee(c, isNew, decls)
+			return c2 != nil
 		}
+		call, blocked := firstCall(e, fc.pkg.TypesInfo, isTarget)
 		if call != nil {
 			return fc.newCallee(call, isNew, decls)
+		}
+		if blocked {
+			return nil, nil
 		}
 	}
 	return nil, nil
@@ -297,7 +329,7 @@ func stmtHasCall(s ast.Stmt) bool {
 // unconditionally. blocked is set when a side-effecting construct (another real call, a receive, a
 // function literal's creation is fine) precedes it or when the first call sits under the right-hand
 // side of && / ||. Conversions and the builtins len/cap/make/new/append-free forms count as pure.
-func firstCall(e ast.Expr, info *types.Info) (call *ast.CallExpr, blocked bool) {
+func firstCall(e ast.Expr, info *types.Info, isTarget func(*ast.CallExpr) bool) (call *ast.CallExpr, blocked bool) {
 	var walk func(e ast.Expr, cond bool) bool // returns true to stop
 	walk = func(e ast.Expr, cond bool) bool {
 		switch x := e.(type) {
@@ -348,8 +380,14 @@ func firstCall(e ast.Expr, info *types.Info) (call *ast.CallExpr, blocked bool) 
 					}
 				}
 			}
-			// arguments and receiver are evaluated before the call itself: a call among them
-			// comes first
+			// a call to a new helper: its arguments are evaluated first in the inlined form as
+			// well, so calls among them do not matter
+			if isTarget(x) {
+				call = x
+				return true
+			}
+			// arguments and receiver are evaluated before the call itself: a new helper among
+			// them comes first; otherwise this call's side effects precede whatever follows
 			if sel, ok := x.Fun.(*ast.SelectorExpr); ok {
 				if walk(sel.X, cond) {
 					return true
@@ -360,7 +398,7 @@ func firstCall(e ast.Expr, info *types.Info) (call *ast.CallExpr, blocked bool) 
 					return true
 				}
 			}
-			call = x
+			blocked = true
 			return true
 		case *ast.SelectorExpr:
 			return walk(x.X, cond)
@@ -401,6 +439,167 @@ func firstCall(e ast.Expr, info *types.Info) (call *ast.CallExpr, blocked bool) 
 	return call, blocked
 }
 
+// exprForm: text of the helper's single returned expression with parameters (and receiver)
+// replaced by the call's arguments, when that is a faithful replacement of the call.
+func (fc *fileCtx) exprForm(call *ast.CallExpr, callee *types.Func, fd *ast.FuncDecl) (string, bool) {
+	info := fc.pkg.TypesInfo
+	sig := callee.Type().(*types.Signature)
+	if sig.TypeParams() != nil || sig.RecvTypeParams() != nil || sig.Variadic() || sig.Results().Len() != 1 {
+		return "", false
+	}
+	if len(fd.Body.List) != 1 || len(call.Args) != sig.Params().Len() {
+		return "", false
+	}
+	ret, ok := fd.Body.List[0].(*ast.ReturnStmt)
+	if !ok || len(ret.Results) != 1 {
+		return "", false
+	}
+	if fd.Type.Results != nil && len(fd.Type.Results.List) == 1 && len(fd.Type.Results.List[0].Names) > 0 {
+		return "", false // named result
+	}
+	pure := func(e ast.Expr) bool {
+		ok := true
+		ast.Inspect(e, func(n ast.Node) bool {
+			switch x := n.(type) {
+			case *ast.CallExpr:
+				if tv, isT := info.Types[x.Fun]; isT && tv.IsType() {
+					return true
+				}
+				if id, isId := x.Fun.(*ast.Ident); isId {
+					if _, isB := info.Uses[id].(*types.Builtin); isB && (id.Name == "len" || id.Name == "cap") {
+						return true
+					}
+				}
+				ok = false
+			case *ast.FuncLit:
+				ok = false
+			case *ast.UnaryExpr:
+				if x.Op == token.ARROW {
+					ok = false
+				}
+			}
+			return ok
+		})
+		return ok
+	}
+	subst := map[types.Object]string{}
+	if fd.Recv != nil && len(fd.Recv.List) == 1 {
+		sel, isSel := call.Fun.(*ast.SelectorExpr)
+		if !isSel || !pure(sel.X) {
+			return "", false
+		}
+		selInfo := info.Selections[sel]
+		if selInfo == nil || len(selInfo.Index()) != 1 {
+			return "", false
+		}
+		rx := fc.text(sel.X)
+		_, recvPtr := sig.Recv().Type().(*types.Pointer)
+		_, argPtr := info.TypeOf(sel.X).Underlying().(*types.Pointer)
+		switch {
+		case recvPtr && !argPtr:
+			rx = "(&" + rx + ")"
+		case !recvPtr && argPtr:
+			rx = "(*" + rx + ")"
+		default:
+			rx = "(" + rx + ")"
+		}
+		if len(fd.Recv.List[0].Names) == 1 {
+			if obj := info.Defs[fd.Recv.List[0].Names[0]]; obj != nil {
+				subst[obj] = rx
+			}
+		}
+	} else if _, isSel := call.Fun.(*ast.SelectorExpr); isSel {
+		return "", false
+	}
+	pi := 0
+	for _, fld := range fd.Type.Params.List {
+		if len(fld.Names) == 0 {
+			if !pure(call.Args[pi]) {
+				return "", false
+			}
+			pi++
+			continue
+		}
+		for _, nm := range fld.Names {
+			if !pure(call.Args[pi]) {
+				return "", false
+			}
+			// a parameter of interface type bound to a concrete argument changes the static
+			// type seen by the expression: keep the conversion explicit
+			arg := "(" + fc.text(call.Args[pi]) + ")"
+			pt := sig.Params().At(pi).Type()
+			if at := info.TypeOf(call.Args[pi]); at != nil && !types.Identical(at, pt) {
+				qual := func(p *types.Package) string {
+					if p == fc.pkg.Types {
+						return ""
+					}
+					return fc.importName(p.Path(), p.Name())
+				}
+				arg = "(" + types.TypeString(pt, qual) + ")" + arg
+				if _, isPtr := pt.(*types.Pointer); isPtr {
+					arg = "((" + types.TypeString(pt, qual) + ")" + "(" + fc.text(call.Args[pi]) + "))"
+				}
+			}
+			if obj := info.Defs[nm]; obj != nil {
+				subst[obj] = arg
+			}
+			pi++
+		}
+	}
+	if why := fc.captureProblem(fd, call.Pos()); why != "" {
+		return "", false
+	}
+	if bodyObstacle(fd, info, callee) != "" {
+		return "", false
+	}
+	// private copy of the expression
+	var srcBuf bytes.Buffer
+	if err := printer.Fprint(&srcBuf, fc.pkg.Fset, ret.Results[0]); err != nil {
+		return "", false
+	}
+	fset := token.NewFileSet()
+	ex, err := parser.ParseExprFrom(fset, "expr.go", srcBuf.String(), 0)
+	if err != nil {
+		return "", false
+	}
+	var orig, dup []*ast.Ident
+	ast.Inspect(ret.Results[0], func(n ast.Node) bool {
+		if id, ok := n.(*ast.Ident); ok {
+			orig = append(orig, id)
+		}
+		return true
+	})
+	ast.Inspect(ex, func(n ast.Node) bool {
+		if id, ok := n.(*ast.Ident); ok {
+			dup = append(dup, id)
+		}
+		return true
+	})
+	if len(orig) != len(dup) {
+		return "", false
+	}
+	for i, id := range orig {
+		if dup[i].Name != id.Name {
+			return "", false
+		}
+		if pn, ok := info.Uses[id].(*types.PkgName); ok {
+			dup[i].Name = fc.importName(pn.Imported().Path(), pn.Imported().Name())
+			continue
+		}
+		if obj := info.Uses[id]; obj != nil {
+			if txt, ok := subst[obj]; ok {
+				dup[i].Name = txt
+			}
+		}
+	}
+	var out bytes.Buffer
+	if err := printer.Fprint(&out, fset, ex); err != nil {
+		return "", false
+	}
+	txt := strings.ReplaceAll(out.String(), "\n", " ")
+	return "(" + txt + ")", true
+}
+
 // ---- one call site --------------------------------------------------------------------------------
 
 // inlineAt records the edits that inline `call` (to callee, declared by fd in file calleeFile)
@@ -417,7 +616,9 @@ func (fc *fileCtx) inlineAt(s ast.Stmt, call *ast.CallExpr, callee *types.Func, 
 	if len(call.Args) != sig.Params().Len() {
 		return "argument list is a multi-value call"
 	}
-	if why := bodyObstacle(fd, info, callee); why != "" {
+	_, isDefer := s.(*ast.DeferStmt)
+	_, isGo := s.(*ast.GoStmt)
+	if why := bodyObstacle(fd, info, callee); why != "" && !((isDefer || isGo) && why == "helper uses defer") {
 		return why
 	}
 	// the statement must start its line and end its line (we splice whole lines)
@@ -512,7 +713,24 @@ func (fc *fileCtx) inlineAt(s ast.Stmt, call *ast.CallExpr, callee *types.Func, 
 	for _, r := range results {
 		resNames = append(resNames, r.name)
 	}
-	body, err := fc.bodyText(fd, calleeFile, resNames, label, tag, asClosure)
+	var resKinds []string
+	for i := 0; i < sig.Results().Len(); i++ {
+		k := ""
+		switch t := sig.Results().At(i).Type().Underlying().(type) {
+		case *types.Basic:
+			if t.Info()&types.IsBoolean != 0 {
+				k = "bool"
+			}
+		case *types.Interface:
+			// only the error result of the (value, error) idiom: refining pointers would turn a
+			// value the caller merely passes on into a phi with nil
+			if sig.Results().At(i).Type().String() == "error" {
+				k = "nilable"
+			}
+		}
+		resKinds = append(resKinds, k)
+	}
+	body, err := fc.bodyText(fd, calleeFile, resNames, resKinds, label, tag, asClosure)
 	if err != nil {
 		return "cannot print body: " + err.Error()
 	}
@@ -806,7 +1024,7 @@ func (fc *fileCtx) captureProblem(fd *ast.FuncDecl, at token.Pos) string {
 // assignments to the result variables followed by `break label` (or a plain return inside a
 // closure), labels made unique, and imported package names rewritten to the names in use in the
 // caller's file.
-func (fc *fileCtx) bodyText(fd *ast.FuncDecl, calleeFile *ast.File, results []string, label, tag string, asClosure bool) (string, error) {
+func (fc *fileCtx) bodyText(fd *ast.FuncDecl, calleeFile *ast.File, results []string, resKinds []string, label, tag string, asClosure bool) (string, error) {
 	info := fc.pkg.TypesInfo
 	ctf := fc.pkg.Fset.File(fd.Pos())
 	// re-parse a private copy of the body
@@ -868,7 +1086,33 @@ func (fc *fileCtx) bodyText(fd *ast.FuncDecl, calleeFile *ast.File, results []st
 	})
 	// returns (not inside function literals)
 	depth := 0
+	var stack []ast.Node
+	// knownNonNilHere: the return sits directly in `if id != nil { … }`
+	guardedNonNil := func(id string) bool {
+		for i := len(stack) - 2; i >= 0; i-- { // stack top is the return statement itself
+			if ifs, ok := stack[i].(*ast.IfStmt); ok {
+				if be, ok := ifs.Cond.(*ast.BinaryExpr); ok && be.Op == token.NEQ {
+					if x, ok := be.X.(*ast.Ident); ok && x.Name == id {
+						if y, ok := be.Y.(*ast.Ident); ok && y.Name == "nil" {
+							// only when we are in the then-branch
+							if i+1 < len(stack) && stack[i+1] == ast.Node(ifs.Body) {
+								return true
+							}
+						}
+					}
+				}
+				return false
+			}
+			if _, ok := stack[i].(*ast.BlockStmt); !ok {
+				return false
+			}
+		}
+		return false
+	}
 	astutil.Apply(cp, func(c *astutil.Cursor) bool {
+		if c.Node() != nil {
+			stack = append(stack, c.Node())
+		}
 		switch x := c.Node().(type) {
 		case *ast.FuncLit:
 			depth++
@@ -887,6 +1131,39 @@ func (fc *fileCtx) bodyText(fd *ast.FuncDecl, calleeFile *ast.File, results []st
 					lhs = append(lhs, ast.NewIdent(r))
 				}
 				list = append(list, &ast.AssignStmt{Lhs: lhs, Tok: token.ASSIGN, Rhs: x.Results})
+				// make the returned truth value / nil-ness explicit in control flow, so that the
+				// test the caller applies to the result after the join can be threaded back to
+				// this return: `r = E` becomes `r = E; if r { r = true } else { r = false }`
+				// (booleans) or `if r != nil { r = r } else { r = nil }` (errors, pointers)
+				if !asClosure {
+					for i, r := range results {
+						if i >= len(resKinds) {
+							break
+						}
+						if len(x.Results) == len(results) {
+							if id, ok := x.Results[i].(*ast.Ident); ok && (id.Name == "true" || id.Name == "false" || id.Name == "nil" || guardedNonNil(id.Name)) {
+								continue
+							}
+							if ce, ok := x.Results[i].(*ast.CallExpr); ok {
+								if se, ok := ce.Fun.(*ast.SelectorExpr); ok {
+									if pk, ok := se.X.(*ast.Ident); ok && (pk.Name == "errors" && se.Sel.Name == "New" || pk.Name == "fmt" && se.Sel.Name == "Errorf" || pk.Name == "status" && (se.Sel.Name == "Error" || se.Sel.Name == "Errorf")) {
+										continue
+									}
+								}
+							}
+						}
+						switch resKinds[i] {
+						case "bool":
+							list = append(list, &ast.IfStmt{Cond: ast.NewIdent(r),
+								Body: &ast.BlockStmt{List: []ast.Stmt{&ast.AssignStmt{Lhs: []ast.Expr{ast.NewIdent(r)}, Tok: token.ASSIGN, Rhs: []ast.Expr{ast.NewIdent("true")}}}},
+								Else: &ast.BlockStmt{List: []ast.Stmt{&ast.AssignStmt{Lhs: []ast.Expr{ast.NewIdent(r)}, Tok: token.ASSIGN, Rhs: []ast.Expr{ast.NewIdent("false")}}}}})
+						case "nilable":
+							list = append(list, &ast.IfStmt{Cond: &ast.BinaryExpr{X: ast.NewIdent(r), Op: token.NEQ, Y: ast.NewIdent("nil")},
+								Body: &ast.BlockStmt{List: []ast.Stmt{&ast.AssignStmt{Lhs: []ast.Expr{ast.NewIdent(r)}, Tok: token.ASSIGN, Rhs: []ast.Expr{ast.NewIdent(r)}}}},
+								Else: &ast.BlockStmt{List: []ast.Stmt{&ast.AssignStmt{Lhs: []ast.Expr{ast.NewIdent(r)}, Tok: token.ASSIGN, Rhs: []ast.Expr{ast.NewIdent("nil")}}}}})
+						}
+					}
+				}
 			}
 			if asClosure {
 				list = append(list, &ast.ReturnStmt{})
@@ -894,10 +1171,14 @@ func (fc *fileCtx) bodyText(fd *ast.FuncDecl, calleeFile *ast.File, results []st
 				list = append(list, &ast.BranchStmt{Tok: token.BREAK, Label: ast.NewIdent(label)})
 			}
 			c.Replace(&ast.BlockStmt{List: list})
+			stack = stack[:len(stack)-1]
 			return false
 		}
 		return true
 	}, func(c *astutil.Cursor) bool {
+		if c.Node() != nil && len(stack) > 0 {
+			stack = stack[:len(stack)-1]
+		}
 		if _, ok := c.Node().(*ast.FuncLit); ok {
 			depth--
 		}
